@@ -111,9 +111,32 @@ func init() {
 			}
 			rec.Panic = protect(func() {
 				sets := [2]*toolbox3d.RectSet{toolbox3d.NewRectSet(), toolbox3d.NewRectSet()}
+				// every third history in tenths: the coordinate k/10 is written as k*0.1, k/10 or a sum of tenths, which
+				// differ from each other by an ulp now and then (faces that are nearly, but not exactly, in one plane)
+				unit := 1.0
+				cv := func(k int) float64 { return float64(k) }
+				if id%3 == 2 {
+					unit = 0.1
+					cv = func(k int) float64 {
+						switch rng.Intn(3) {
+						case 0:
+							return float64(k) * 0.1
+						case 1:
+							return float64(k) / 10
+						}
+						v, step := 0.0, 0.1
+						if k < 0 {
+							step = -0.1
+						}
+						for i := 0; i < k || i < -k; i++ {
+							v += step
+						}
+						return v
+					}
+				}
 				for _, o := range rec.Ops {
-					r := model3d.NewRect(model3d.XYZ(float64(o.Lo[0]), float64(o.Lo[1]), float64(o.Lo[2])),
-						model3d.XYZ(float64(o.Hi[0]), float64(o.Hi[1]), float64(o.Hi[2])))
+					r := model3d.NewRect(model3d.XYZ(cv(o.Lo[0]), cv(o.Lo[1]), cv(o.Lo[2])),
+						model3d.XYZ(cv(o.Hi[0]), cv(o.Hi[1]), cv(o.Hi[2])))
 					arg := toolbox3d.NewRectSet()
 					if o.Src != 0 {
 						arg = sets[o.Src-1]
@@ -142,20 +165,20 @@ func init() {
 				solid := rs.Solid()
 				solid2 := sets[1].Solid()
 				var e1, e2, e3, e4 bool
-				rec.Smin, e1 = scaledVec(c3v(rs.Min()), 2)
-				rec.Smax, e2 = scaledVec(c3v(rs.Max()), 2)
-				rec.Bmin, e3 = scaledVec(c3v(solid.Min()), 2)
-				rec.Bmax, e4 = scaledVec(c3v(solid.Max()), 2)
+				rec.Smin, e1 = scaledVec(c3v(rs.Min()), 2/unit)
+				rec.Smax, e2 = scaledVec(c3v(rs.Max()), 2/unit)
+				rec.Bmin, e3 = scaledVec(c3v(solid.Min()), 2/unit)
+				rec.Bmax, e4 = scaledVec(c3v(solid.Max()), 2/unit)
 				rec.Bexact = e1 && e2 && e3 && e4
 				idx := 0
 				for z := rec.Plo[2]; z <= rec.Phi[2]; z++ {
 					for y := rec.Plo[1]; y <= rec.Phi[1]; y++ {
 						for x := rec.Plo[0]; x <= rec.Phi[0]; x++ {
 							idx++
-							if solid.Contains(model3d.XYZ(float64(x)/2, float64(y)/2, float64(z)/2)) {
+							if solid.Contains(model3d.XYZ(float64(x)/2*unit, float64(y)/2*unit, float64(z)/2*unit)) {
 								rec.Inside = append(rec.Inside, idx)
 							}
-							if solid2.Contains(model3d.XYZ(float64(x)/2, float64(y)/2, float64(z)/2)) {
+							if solid2.Contains(model3d.XYZ(float64(x)/2*unit, float64(y)/2*unit, float64(z)/2*unit)) {
 								rec.Inside2 = append(rec.Inside2, idx)
 							}
 						}
